@@ -634,15 +634,17 @@ def eval_a(lab: Lab, rec, case: dict) -> typing.List[Fail]:
         if cfg in ("all", "all-real"):
             for n in sorted(utop & b):
                 tags.add("A.same_name_both_sets")
-                got = identity(lab, gen, cfg, n + ".j2")
-                if got not in (f"user:{n}", f"user2:{n}"):
-                    res.append(
-                        (
-                            f"A|built-in-used-instead-of-user-template|cfg={cfg}",
-                            f"cfg={cfg} user={sorted(utop)} builtin={sorted(b)}: get_template('{n}.j2') gave {got!r}, "
-                            f"the user's file contains 'user:{n}'",
+                # by its plain name and by an equivalent spelling the template loaders accept ("./x.j2" names the same file)
+                for spelled in (n + ".j2", "./" + n + ".j2"):
+                    got = identity(lab, gen, cfg, spelled)
+                    if got not in (f"user:{n}", f"user2:{n}"):
+                        res.append(
+                            (
+                                f"A|built-in-used-instead-of-user-template|cfg={cfg}",
+                                f"cfg={cfg} user={sorted(utop)} builtin={sorted(b)}: get_template({spelled!r}) gave {got!r}, "
+                                f"the user's file contains 'user:{n}'",
+                            )
                         )
-                    )
         rec.event("A.lookups", lookups)
         rec.case(
             ("A", case),
